@@ -18,9 +18,17 @@ _BIN = {'+': '+', '-': '-', '*': '*', '&': '&', '|': '|', '^': '^', '<<': '<<', 
         '<': '<', '>': '>', '<=': '<=', '>=': '>=', '==': '==', '!=': '!='}
 
 
+class Out:
+    """model of a callee with reference out-parameters: fn(*args) -> (result, new value of each out argument...)"""
+
+    def __init__(self, fn, outs):
+        self.fn, self.outs = fn, tuple(outs)
+
+
 class Compiler:
-    def __init__(self, fn, hooks=None, enum_values=None):
+    def __init__(self, fn, hooks=None, enum_values=None, capture=()):
         self.fn = fn
+        self.capture = tuple(capture)
         self.hooks = hooks or {}
         self.enum_values = enum_values or {}
         self.names = {}
@@ -40,9 +48,11 @@ class Compiler:
         if k == 'elem':
             return '_e[%d][%d]' % (x['b'], x['i'])
         if k == 'lit':
-            if 'v' in x:
+            if 'v' in x and not isinstance(x['v'], str):
                 return repr(int(x['v']))
-            raise NotCompilable('literal')
+            if 'c' in x:
+                return repr(int(x['c']))
+            raise NotCompilable('literal %s' % str(x)[:80])
         if k == 'ref':
             if x.get('dk') in ('param', 'local', 'slocal', 'bind'):
                 if 'c' in x and x.get('dk') not in ('param',) and False:
@@ -99,20 +109,22 @@ class Compiler:
         if k == 'call':
             q = callee_q(x)
             key = x.get('op') and ('op' + x['op'] + ':' + q) or q
-            h = None
-            for cand in (key, q, callee_name(x)):
-                if cand in self.hooks:
-                    h = cand
-                    break
+            h = self._hook_of(x)
             if h is None:
                 raise NotCompilable('call to %s is not modelled' % (key,))
+            if isinstance(self.hooks[h], Out):
+                raise NotCompilable('call with out-parameters nested in an expression')
             args = []
             if 'obj' in x:
-                args.append(self.expr(x['obj']))
+                args.append(self._obj(x['obj']))
             args += [self.expr(a) for a in x.get('args', [])]
             return '_h[%r](%s)' % (h, ', '.join(args))
         if k == 'ctor' and x.get('copy') and len(x.get('args', [])) == 1:
-            return self.expr(x['args'][0])
+            return '_cp(%s)' % self.expr(x['args'][0])
+        if k == 'ctor' and ('ctor:' + str(x.get('q'))) in self.hooks:
+            return '_h[%r](%s)' % ('ctor:' + x['q'], ', '.join(self.expr(a) for a in x.get('args', [])))
+        if k == 'defarg':
+            return 'None'
         if k == 'move':
             return self.expr(x['e'])
         raise NotCompilable('expression kind %s' % k)
@@ -163,12 +175,43 @@ class Compiler:
                 out.append('%s%s = %s' % (ind, tgt, name))
             return None
         if k == 'ret':
-            if 'e' in x:
-                out.append('%sreturn %s' % (ind, self.expr(x['e'])))
-            else:
-                out.append('%sreturn None' % ind)
+            val = self.expr(x['e']) if 'e' in x else 'None'
+            if self.capture:
+                cap = ', '.join('%r: %s' % (p['n'], self.var(p)) for p in self.fn.params if p.get('n') in self.capture)
+                val = '(%s, {%s})' % (val, cap)
+            out.append('%sreturn %s' % (ind, val))
             return 'ret'
+        if k == 'call':
+            h = self._hook_of(x)
+            if h is not None and isinstance(self.hooks[h], Out):
+                o = self.hooks[h]
+                args = ([x['obj']] if 'obj' in x else []) + list(x.get('args', []))
+                code = ', '.join([self._obj(a) if (j == 0 and 'obj' in x) else self.expr(a) for j, a in enumerate(args)])
+                out.append('%s_t = _h[%r].fn(%s)' % (ind, h, code))
+                out.append('%s%s = _t[0]' % (ind, tgt))
+                for j, ai in enumerate(o.outs):
+                    a = args[ai]
+                    while isinstance(a, dict) and a.get('k') in ('icast', 'cast'):
+                        a = a['e']
+                    if not (isinstance(a, dict) and a.get('k') == 'ref'):
+                        raise NotCompilable('out argument is not a variable')
+                    out.append('%s%s = _t[%d]' % (ind, self.var(a), j + 1))
+                return None
         out.append('%s%s = %s' % (ind, tgt, self.expr(x)))
+        return None
+
+    def _obj(self, o):
+        """object of a modelled member call: a stateless global parser object carries no value"""
+        if isinstance(o, dict) and o.get('k') == 'ref' and o.get('dk') == 'gvar' and 'c' not in o:
+            return 'None'
+        return self.expr(o)
+
+    def _hook_of(self, x):
+        q = callee_q(x)
+        key = x.get('op') and ('op' + x['op'] + ':' + q) or q
+        for cand in (key, q, callee_name(x)):
+            if cand in self.hooks:
+                return cand
         return None
 
     def compile(self):
@@ -218,7 +261,7 @@ class Compiler:
             if len(out) == body_start:
                 out.append(ind + 'pass')
         src = '\n'.join(out)
-        env = {'_h': self.hooks, '_s': _s, '_div': _div, '_mod': _mod}
+        env = {'_h': self.hooks, '_s': _s, '_div': _div, '_mod': _mod, '_cp': _cp}
         try:
             exec(src, env)
         except SyntaxError as e:
@@ -233,6 +276,10 @@ def _s(v, w):
     return v - (1 << w) if v >> (w - 1) else v
 
 
+def _cp(v):
+    return v.copy() if hasattr(v, 'copy') else v
+
+
 def _div(a, b):
     q = abs(a) // abs(b)
     return q if (a >= 0) == (b >= 0) else -q
@@ -242,5 +289,5 @@ def _mod(a, b):
     return a - _div(a, b) * b
 
 
-def compile_fn(fn, hooks=None):
-    return Compiler(fn, hooks).compile()
+def compile_fn(fn, hooks=None, capture=()):
+    return Compiler(fn, hooks, capture=capture).compile()
